@@ -524,7 +524,8 @@ def indefinite_orthogonalize(form, matrices):
 
     """
     if len(matrices.shape) < 2:
-        return normalize(matrices, form)
+        # normalize works in place: do not overwrite the caller's vector
+        return normalize(np.array(matrices), form)
 
     n, m = matrices.shape[-2:]
 
@@ -536,7 +537,8 @@ def indefinite_orthogonalize(form, matrices):
     #is probably small
 
     for i in range(n):
-        row = matrices[..., i, :]
+        # a copy: `row -= ...` must not overwrite the caller's array
+        row = matrices[..., i, :].astype(result.dtype)
         for j in range(i):
             row -= projection(row, result[..., j, :], form)
         result[..., i, :] = row
